@@ -413,7 +413,10 @@ Qed.
 (* HEAD's snapshot supplies the name: as a file, or as a directory holding a file *)
 Definition head_file (ns : list node) (a : bytes) : bool :=
   match leaf_node ns a with Some _ => true | None => false end.
+(* the root of the snapshot is not a node: "." names it, and every file of the
+   snapshot lies beneath it *)
 Definition head_dir (ns : list node) (a : bytes) : bool :=
+  (bytes_eqb a [x2e] && negb (is_nil (flatten [] ns))) ||
   match get_node ns a with
   | Some n => if is_leaf n then false else negb (is_nil (flatten_node (dirname a) n))
   | None => false
@@ -426,12 +429,15 @@ Lemma restore_idx_target_valid : forall w ns a,
 Proof.
   intros w ns a. unfold restore_targets, restore_idx_valid, rm_valid, head_file, head_dir, is_dir, leaf_node.
   destruct (tracked w a); [reflexivity|]. cbn [orb].
+  assert (Hdot : negb (is_nil (if bytes_eqb a [x2e] then map e_path (flatten [] ns) else []))
+                 = bytes_eqb a [x2e] && negb (is_nil (flatten [] ns))).
+  { destruct (bytes_eqb a [x2e]); [rewrite is_nil_map; reflexivity | reflexivity]. }
   destruct (get_node ns a) as [n|].
   - destruct (is_leaf n).
     + cbn [is_nil negb]. rewrite !orb_true_r. reflexivity.
-    + rewrite is_nil_dedup_first, is_nil_app, !is_nil_map, negb_andb, !orb_false_r. reflexivity.
-  - rewrite is_nil_dedup_first, is_nil_app, !is_nil_map, negb_andb. cbn [is_nil negb]. rewrite !orb_false_r.
-    reflexivity.
+    + rewrite is_nil_dedup_first, !is_nil_app, !negb_andb, Hdot, !is_nil_map, !orb_false_r. reflexivity.
+  - rewrite is_nil_dedup_first, !is_nil_app, !negb_andb, Hdot, !is_nil_map. cbn [is_nil negb].
+    rewrite !orb_false_r. reflexivity.
 Qed.
 
 (* loading HEAD's snapshot reads only *)
@@ -476,16 +482,26 @@ Qed.
 
 Lemma head_dir_iff : forall ns a,
   head_dir ns a = true <->
+  (a = [x2e] /\ flatten [] ns <> []) \/
   exists n, get_node ns a = Some n /\ is_leaf n = false /\ flatten_node (dirname a) n <> [].
 Proof.
-  intros ns a. unfold head_dir. destruct (get_node ns a) as [n|]; split.
+  intros ns a. unfold head_dir. rewrite orb_true_iff, andb_true_iff.
+  assert (Hnil : forall (l : list entry), negb (is_nil l) = true <-> l <> []).
+  { intro l. destruct l; cbn [is_nil negb]; split; intro H;
+      [discriminate H | contradiction H; reflexivity | discriminate | reflexivity]. }
+  rewrite Hnil, bytes_eqb_eq.
+  apply or_iff_compat_l.
+  destruct (get_node ns a) as [n|]; split.
   - intro H. exists n. destruct (is_leaf n); [discriminate H|]. split; [reflexivity|]. split; [reflexivity|].
-    intro Hnil. rewrite Hnil in H. discriminate H.
-  - intros [n' (Hn & Hl & Hf)]. injection Hn as <-. rewrite Hl.
-    destruct (flatten_node (dirname a) n); [contradiction Hf; reflexivity | reflexivity].
+    apply Hnil. exact H.
+  - intros [n' (Hn & Hl & Hf)]. injection Hn as <-. rewrite Hl. apply Hnil. exact Hf.
   - discriminate.
   - intros [n' (Hn & _)]. discriminate Hn.
 Qed.
+
+(* "." is accepted by `restore --staged` as soon as HEAD's snapshot holds a file *)
+Lemma head_dir_dot : forall ns, flatten [] ns <> [] -> head_dir ns [x2e] = true.
+Proof. intros ns H. apply head_dir_iff. left. split; [reflexivity | exact H]. Qed.
 
 (* ---------- add ---------- *)
 (* what `add` asks of a name: it exists on disk (file or directory), or it is
